@@ -2,3 +2,5 @@ pub mod c01;
 pub mod c08;
 pub mod c06;
 pub mod c02;
+pub mod c16;
+pub mod c17;
